@@ -187,6 +187,10 @@ func Ways(e *ConstEnv) []*Way {
 	add("tdstruct", idl.TypedefT(e.TdS), idl.VM(kv(idl.VS("a"), idl.VI(2))))
 	add("list_struct", idl.ListOf(S), idl.VL(idl.VM(kv(idl.VS("a"), idl.VI(1))), idl.VM()))
 	add("map_struct", idl.MapOf(str, S), idl.VM(kv(idl.VS("k"), idl.VM(kv(idl.VS("b"), idl.VS("v"))))))
+	// struct constants named inside container literals and struct literals
+	add("list_struct_constref", idl.ListOf(S), idl.VL(idl.VC(e.cSt), idl.VM(kv(idl.VS("a"), idl.VI(2))), idl.VC(e.cSt)))
+	add("set_struct_constref", idl.SetOf(S), idl.VL(idl.VC(e.cSt)))
+	add("map_struct_constref", idl.MapOf(str, S), idl.VM(kv(idl.VS("k"), idl.VC(e.cSt)), kv(idl.VS("l"), idl.VM())))
 	return ws
 }
 
